@@ -78,6 +78,7 @@ type scrape struct {
 	counts map[string]uint64
 	kinds  map[string]string
 	badH   []string
+	bucks  map[string]map[float64]uint64 // histogram: upper bound -> cumulative count
 	target int
 	scopes int
 }
@@ -305,7 +306,7 @@ func (engine) Body(r *simdrv.Run) {
 		})
 	}
 	doScrape := func(task string) {
-		sc := &scrape{task: task, inv: sim.Stamp(), vals: map[string]float64{}, counts: map[string]uint64{}, kinds: map[string]string{}}
+		sc := &scrape{task: task, inv: sim.Stamp(), vals: map[string]float64{}, counts: map[string]uint64{}, kinds: map[string]string{}, bucks: map[string]map[float64]uint64{}}
 		w.scrapes = append(w.scrapes, sc)
 		mfs, err := reg.Gather()
 		simrt.Woke(simdrv.PtOp)
@@ -341,6 +342,10 @@ func (engine) Body(r *simdrv.Run) {
 				case dto.MetricType_HISTOGRAM:
 					h := m.Histogram
 					sc.kinds[id], sc.vals[id], sc.counts[id] = "histogram", h.GetSampleSum(), h.GetSampleCount()
+					sc.bucks[id] = map[float64]uint64{}
+					for _, b := range h.Bucket {
+						sc.bucks[id][b.GetUpperBound()] = b.GetCumulativeCount()
+					}
 					var prev uint64
 					for _, b := range h.Bucket {
 						if b.GetCumulativeCount() < prev {
@@ -499,6 +504,19 @@ func (engine) Body(r *simdrv.Run) {
 			if in.kind == "hist_i" {
 				if n := popcount(bits); uint64(n) != sc.counts[id] {
 					r.Violate(prop, "unfaithful-value", "unfaithful-value/hist-count", "histogram %q: sum %v names %d measurements but count is %d", in.name, v, n, sc.counts[id])
+				}
+				// every measurement is 2^bit: the cumulative count of the bucket with upper bound ub is the
+				// number of decoded measurements <= ub
+				for ub, got := range sc.bucks[id] {
+					var want uint64
+					for b := 0; b < 40; b++ {
+						if bits&(1<<uint(b)) != 0 && float64(uint64(1)<<uint(b)) <= ub {
+							want++
+						}
+					}
+					if got != want {
+						r.Violate(prop, "unfaithful-value", "unfaithful-value/hist-bucket", "histogram %q: bucket le=%v holds %d, the measurements named by the sum %v put %d there", in.name, ub, got, v, want)
+					}
 				}
 			}
 			if prev := lastBy[sc.task]; prev != nil && in.kind != "updown_i" || prev != nil && in.kind == "updown_i" {
